@@ -406,7 +406,12 @@ def origins(e, limit=400):
 
 # ------------------------------------------------------------------ locks (P5)
 
-LOCK_FNS = ("std::sync::poison::mutex::Mutex::<T>::lock", "std::sync::poison::rwlock::RwLock::<T>::write")
+# blocking acquisition of an exclusive guard: std (a `LockResult`, followed through unwrap / expect), parking_lot (lock_api; the guard
+# itself), tokio's mutex from synchronous code
+LOCK_FNS = ("std::sync::poison::mutex::Mutex::<T>::lock", "std::sync::poison::rwlock::RwLock::<T>::write",
+            "lock_api::mutex::Mutex::<R, T>::lock", "lock_api::rwlock::RwLock::<R, T>::write", "tokio::sync::mutex::Mutex::<T>::blocking_lock")
+SHARED_LOCK_TYPES = ("alloc::sync::Arc<std::sync::poison::mutex::Mutex<", "alloc::sync::Arc<std::sync::poison::rwlock::RwLock<",
+                     "alloc::sync::Arc<lock_api::mutex::Mutex<", "alloc::sync::Arc<lock_api::rwlock::RwLock<", "alloc::sync::Arc<tokio::sync::mutex::Mutex<")
 
 
 def lock_guards(body):
